@@ -28,27 +28,64 @@ SHAPE = {"estimate_u": "copyThenCommit", "estimate_m_label": "copyThenCommit", "
          "predict": "readOnly", "predict_thr": "readOnly", "deterministic_link": "readOnly", "cluster": "readOnly", "compute_tf": "readOnly",
          "find_matches": "withTemporaries", "compare_two": "withTemporaries", "graph_metrics": "readOnly"}
 
+# ---- audit C08: evaluation / accuracy / profiling / dashboard entry points (none of them may write to the observable state:
+# they work on a deep copy of the linker or only read it) + training from a pairwise labels table
+EVAL_OPS = ["acc_label_col", "pred_err_label_col", "acc_label_table", "pred_err_label_table", "estimate_m_labels_table", "unlinkables",
+            "labelling_tool", "viz", "profile", "cluster_best_links"]
+FAULTABLE = FAULTABLE + EVAL_OPS
+SHAPE.update({op: "readOnly" for op in EVAL_OPS})
+SHAPE["estimate_m_labels_table"] = "copyThenCommit"
+LABEL_OPS = ["acc_label_col", "pred_err_label_col", "acc_label_table", "pred_err_label_table"]
+OUTPUT_TYPES = ["table", "threshold_selection", "roc", "precision_recall", "accuracy"]
+METRICS = ["specificity", "npv", "accuracy", "f1", "f2", "f0_5", "p4", "phi"]
+VIZ_KINDS = ["histogram", "comparison_viewer", "cluster_studio", "tf_chart", "waterfall", "match_weights_chart", "m_u_chart", "parameter_estimates"]
+PROFILE_KINDS = ["profile_columns", "completeness", "cumulative_comparisons", "count_comparisons", "n_largest_blocks"]
 
-def observable(linker):
+
+def observable(linker, tolerant=False):
+    """tolerant: after a failed call even saving the model may raise (e.g. a left-over rule on a column that does not exist): that is
+    recorded as part of the state (and differs from the readable state before the call), not an error of the harness."""
     s = linker._settings_obj
-    model = json.loads(json.dumps(linker.misc.save_model_to_json(out_path=None), default=str))
-    return {"model": model, "rules": [br.blocking_rule_sql for br in s._blocking_rules_to_generate_predictions],
-            "retain": [bool(s._retain_matching_columns), bool(s._retain_intermediate_calculation_columns)], "link_type": s._link_type,
-            "n_comparisons": len(s.comparisons)}
+    out = {"rules": [br.blocking_rule_sql for br in s._blocking_rules_to_generate_predictions],
+           "retain": [bool(s._retain_matching_columns), bool(s._retain_intermediate_calculation_columns)], "link_type": s._link_type,
+           "n_comparisons": len(s.comparisons),
+           # audit C08: what later calls read besides the saved model: the columns carried into the output, the list of registered EM
+           # sessions (read by populate_..._from_trained_values and by the parameter estimate chart) and the trained-value history
+           "extra_columns": list(s._additional_column_names_to_retain),
+           "sessions": [str(getattr(getattr(t, "_blocking_rule_for_training", None), "blocking_rule_sql", None)) for t in linker._em_training_sessions],
+           "estimates": _canon_records(s._parameter_estimates_as_records)}
+    try:
+        out["model"] = json.loads(json.dumps(linker.misc.save_model_to_json(out_path=None), default=str))
+    except Exception as e:  # noqa: BLE001
+        import traceback
+
+        if not tolerant or f'File "{core.REPO}/' not in traceback.format_exc():
+            raise
+        out["model"] = {"__save_model_to_json_raised__": f"{type(e).__name__}: {str(e).strip()[:200]}"}
+    return out
 
 
-def obs_diff(a, b):
-    for k in ("rules", "retain", "link_type", "n_comparisons"):
+def observable_safe(linker):
+    return observable(linker, tolerant=True)
+
+
+def obs_diff(a, b, close=False):
+    """close=False: the same linker before/after a failed call (exact). close=True: two linkers that ran the same later calls
+    (numbers up to 1e-9 relative: the engines may sum in a different order)."""
+    for k in ("rules", "retain", "link_type", "n_comparisons", "extra_columns", "sessions"):
         if a[k] != b[k]:
             return f"{k} changed from {a[k]} to {b[k]}"
-    if a["model"] != b["model"]:
-        ka = json.dumps(a["model"], sort_keys=True)
-        kb = json.dumps(b["model"], sort_keys=True)
+    eq = _close_json if close else (lambda x, y: x == y)
+    if close:  # two linkers: the random identity of the linker is not part of the model
+        a, b = dict(a, model={k: v for k, v in a["model"].items() if k != "linker_uid"}), dict(b, model={k: v for k, v in b["model"].items() if k != "linker_uid"})
+    if not eq(a["model"], b["model"]):
         # locate the first differing top-level key
         for key in sorted(set(a["model"]) | set(b["model"])):
-            if a["model"].get(key) != b["model"].get(key):
+            if not eq(a["model"].get(key), b["model"].get(key)):
                 return f"saved model differs at '{key}': {json.dumps(a['model'].get(key), sort_keys=True)[:200]} -> {json.dumps(b['model'].get(key), sort_keys=True)[:200]}"
-        return "saved model differs" if ka != kb else None
+        return "saved model differs"
+    if not eq(a["estimates"], b["estimates"]):
+        return f"estimates (history of trained values) changed from {len(a['estimates'])} to {len(b['estimates'])} records"
     return None
 
 
@@ -64,11 +101,40 @@ def build(world, prefix):
     return api, log, linker, state
 
 
-def count_statements(world, prefix, step):
-    api, log, linker, state = build(world, prefix)
-    before = log["statements"]
-    H.apply_op(linker, world, step, state)
-    return log["statements"] - before
+def _close_json(x, y):
+    """Equality of two canonical (JSON-like) results of the same public call on two linkers; floats up to 1e-9 relative."""
+    if isinstance(x, bool) or isinstance(y, bool):
+        return x == y
+    if isinstance(x, (int, float)) and isinstance(y, (int, float)):
+        return core.close(float(x), float(y), 1e-9, 1e-12)
+    if isinstance(x, dict) and isinstance(y, dict):
+        return set(x) == set(y) and all(_close_json(x[k], y[k]) for k in x)
+    if isinstance(x, (list, tuple)) and isinstance(y, (list, tuple)):
+        return len(x) == len(y) and all(_close_json(u, v) for u, v in zip(x, y))
+    return x == y
+
+
+def run_continuation(linker, world, cont, state):
+    """Every step of the continuation on its own (a step that raises is itself a failed call: the following steps still run), then
+    predict() and the observable state. Returns the list of per-step outcomes, the predictions and the state."""
+    import traceback
+
+    outcomes = []
+    for st in cont:
+        try:
+            r = H.apply_op(linker, world, st, state)
+            outcomes.append({"ok": json.loads(json.dumps(r, default=str))})
+        except Exception as e:  # noqa: BLE001
+            if f'File "{core.REPO}/' not in traceback.format_exc() and not isinstance(e, H.InjectedFault):
+                raise
+            outcomes.append({"raised": type(e).__name__, "text": str(e).strip()[:160]})
+    try:
+        rows = H.predict_rows(linker)
+    except Exception as e:  # noqa: BLE001
+        if f'File "{core.REPO}/' not in traceback.format_exc():
+            raise
+        rows = {"__raised__": f"{type(e).__name__}: {str(e).strip()[:200]}"}
+    return outcomes, rows, observable_safe(linker)
 
 
 def run_fault_case(case: dict) -> dict:
@@ -82,46 +148,260 @@ def run_fault_case(case: dict) -> dict:
     try:
         H.apply_op(linker, world, step, dict(state))
     except Exception as e:  # noqa: BLE001
+        import traceback
+
+        if f'File "{core.REPO}/' not in traceback.format_exc() and not isinstance(e, H.InjectedFault):
+            raise
         raised = f"{type(e).__name__}: {str(e)[:160]}"
     finally:
         log["fail_at"] = None
-    after = observable(linker)
+    forget_result_handles(step, state)
+    after = observable_safe(linker)
     out = {"raised": raised, "state_diff": obs_diff(before, after), "n_statements": case.get("n_statements")}
     if raised is None:
         return out
     # continuation on the faulted linker vs on a reference linker that never made the failed call
     api2, log2, ref, state2 = build(world, prefix)
-    try:
-        for st in cont:
-            H.apply_op(linker, world, st, state)
-        mine = H.predict_rows(linker)
-    except Exception as e:  # noqa: BLE001
-        mine = {"__raised__": f"{type(e).__name__}: {str(e)[:200]}"}
-    try:
-        for st in cont:
-            H.apply_op(ref, world, st, state2)
-        want = H.predict_rows(ref)
-    except Exception as e:  # noqa: BLE001
-        want = {"__raised__": f"{type(e).__name__}: {str(e)[:200]}"}
-    if "__raised__" in mine or "__raised__" in want:
-        out["later_diff"] = None if ("__raised__" in mine) == ("__raised__" in want) else f"continuation raised on one side only: faulted={mine.get('__raised__')} reference={want.get('__raised__')}"
-    else:
-        out["later_diff"] = c07.diff_predict(mine, want)
+    mine_steps, mine, mine_obs = run_continuation(linker, world, cont, state)
+    want_steps, want, want_obs = run_continuation(ref, world, cont, state2)
+    out["later_diff"] = None
+    for i, (a, b) in enumerate(zip(mine_steps, want_steps)):
+        if ("raised" in a) != ("raised" in b):
+            out["later_diff"] = f"continuation raised on one side only at step {i} ({cont[i]['op']}): faulted={a.get('raised')}: {a.get('text')} reference={b.get('raised')}: {b.get('text')}"
+            break
+        if "ok" in a and not _close_json(a["ok"], b["ok"]):
+            out["later_diff"] = f"result of the later call {cont[i]['op']} (step {i}) differs (after the history): {json.dumps(a['ok'])[:150]} vs reference {json.dumps(b['ok'])[:150]}"
+            break
+    if out["later_diff"] is None:
+        if "__raised__" in mine or "__raised__" in want:
+            if ("__raised__" in mine) != ("__raised__" in want):
+                out["later_diff"] = f"continuation raised on one side only at the final predict(): faulted={mine.get('__raised__')} reference={want.get('__raised__')}"
+        else:
+            out["later_diff"] = c07.diff_predict(mine, want)
+    if out["later_diff"] is None:
+        d = obs_diff(want_obs, mine_obs, close=True)
+        if d:
+            out["later_diff"] = "state after the continuation differs from the reference linker (after the history): " + d
+    out["cont_raised"] = sum(1 for a in mine_steps if "raised" in a)
     return out
 
 
 run_fault_case_safe = core.safe(run_fault_case)
 
 
+def gen_labels(rng, world):
+    """A pairwise labels table over the ids of the dataset (dedupe: the source dataset columns may be left out)."""
+    ids = [r["unique_id"] for r in world["rows"]]
+    pairs = set()
+    for _ in range(rng.randint(3, 8)):
+        a, b = rng.sample(ids, 2)
+        pairs.add((a, b) if rng.random() < 0.7 else (b, a))  # either orientation
+    return [{"unique_id_l": a, "unique_id_r": b, "clerical_match_score": rng.choice([0.0, 1.0, 1.0, 0.9, 0.3])} for a, b in sorted(pairs)]
+
+
+def gen_step(rng, world, op):
+    """Parameters of the operations that only this check knows (the others come from histories.gen_history)."""
+    tfcols = sorted({f"{c['col']}{ci}" for ci, c in enumerate(world["comparisons"]) if any("tf" in l for l in c["levels"])})
+    if op in ("acc_label_col", "acc_label_table"):
+        p = {"output_type": rng.choice(OUTPUT_TYPES), "thr": rng.choice([0.5, 0.5, 0.9, 0.0, 1.0]), "round": rng.choice([0.1, 0.1, 1.0, None]),
+             "add_metrics": rng.sample(METRICS, rng.choice([0, 0, 1, 3]))}
+        if op == "acc_label_col":
+            p["col"] = "lab"
+            p["zero"] = rng.random() < 0.6  # positives_not_captured_by_blocking_rules_scored_as_zero
+        else:
+            p["labels"] = gen_labels(rng, world)
+        return {"op": op, "p": p}
+    if op in ("pred_err_label_col", "pred_err_label_table"):
+        fp, fn = rng.choice([(True, True), (True, False), (False, True)])
+        p = {"fp": fp, "fn": fn, "thr": rng.choice([0.5, 0.5, 0.9, 0.0, 1.0])}
+        if op == "pred_err_label_col":
+            p["col"] = "lab"
+        else:
+            p["labels"] = gen_labels(rng, world)
+        return {"op": op, "p": p}
+    if op == "estimate_m_labels_table":
+        return {"op": op, "p": {"labels": gen_labels(rng, world)}}
+    if op == "unlinkables":
+        return {"op": op, "p": {"x_col": rng.choice(["match_weight", "match_probability"])}}
+    if op == "labelling_tool":
+        return {"op": op, "p": {"uid": rng.choice(world["rows"])["unique_id"], "w": rng.choice([-4, -30, 0]), "show": rng.random() < 0.5}}
+    if op == "viz":
+        kinds = [k for k in VIZ_KINDS if k != "tf_chart" or tfcols]
+        p = {"kind": rng.choice(kinds), "t": rng.choice([0.1, 0.5])}
+        if p["kind"] == "tf_chart":
+            p["col"] = rng.choice(tfcols)
+        return {"op": op, "p": p}
+    if op == "profile":
+        return {"op": op, "p": {"kind": rng.choice(PROFILE_KINDS), "rule": rng.choice(["l.d = r.d", "l.a = r.a and l.b = r.b", "l.c = r.c"])}}
+    if op == "cluster_best_links":
+        return {"op": op, "p": {"t": rng.choice([0.1, 0.5, 0.9]), "free": rng.choice([[], ["people"]])}}
+    raise ValueError(op)
+
+
+def gen_hist(rng, world, length, ops):
+    """histories.gen_history extended by this check's own operations."""
+    out = []
+    for _ in range(length):
+        op = rng.choice(ops)
+        out += [gen_step(rng, world, op)] if op in EVAL_OPS else H.gen_history(rng, world, length=1, ops=[op])
+    return out
+
+
+def _canon_records(recs, key_cols=None):
+    rows = [json.loads(json.dumps(r, default=str)) for r in recs]
+    rows.sort(key=lambda r: json.dumps(r, sort_keys=True))
+    return rows
+
+
+def _register_labels(linker, p):
+    from harness import impl
+
+    types = {"unique_id_l": "int", "unique_id_r": "int", "clerical_match_score": "float"}
+    if p.get("no_score"):
+        del types["clerical_match_score"]
+    df = impl.typed_frame(p["labels"], types)
+    return linker.table_management.register_labels_table(df, overwrite=True)
+
+
+def _chart_data(ch):
+    d = ch if isinstance(ch, dict) else ch.to_dict()
+    vals = []
+    if isinstance(d.get("data"), dict) and "values" in d["data"]:
+        vals = d["data"]["values"]
+    for v in (d.get("datasets") or {}).values():
+        vals = vals + list(v)
+    return _canon_records(vals)
+
+
+def forget_result_handles(step, state):
+    """profile_columns ends with db_api.delete_tables_created_by_splink_from_db(): by design it drops every table Splink created on that
+    DatabaseAPI (cache entries included), so the caller's handles to earlier predictions/clusters are void after it, whether it succeeded
+    or failed half-way through that clean-up (same treatment as histories' delete_splink_tables)."""
+    if step["op"] == "profile" and step["p"].get("kind") == "profile_columns":
+        state.pop("predict", None)
+        state.pop("cluster", None)
+
+
+def apply_eval(linker, world, step, state):
+    """The evaluation / accuracy / profiling / dashboard operations. Returns a canonical summary of the PUBLIC result (compared between
+    the linker that suffered a failed call and the reference linker)."""
+    import tempfile
+
+    op, p = step["op"], step["p"]
+    ev = linker.evaluation
+    if op in ("acc_label_col", "acc_label_table"):
+        kw = dict(threshold_match_probability=p["thr"], match_weight_round_to_nearest=p["round"], output_type=p["output_type"], add_metrics=list(p["add_metrics"]))
+        if op == "acc_label_col":
+            r = ev.accuracy_analysis_from_labels_column(p["col"], positives_not_captured_by_blocking_rules_scored_as_zero=p["zero"], **kw)
+        else:
+            r = ev.accuracy_analysis_from_labels_table(_register_labels(linker, p) if not p.get("table_name") else p["table_name"], **kw)
+        return _canon_records(r.as_record_dict()) if p["output_type"] == "table" else _chart_data(r)
+    if op in ("pred_err_label_col", "pred_err_label_table"):
+        if op == "pred_err_label_col":
+            r = ev.prediction_errors_from_labels_column(p["col"], include_false_positives=p["fp"], include_false_negatives=p["fn"], threshold_match_probability=p["thr"])
+        else:
+            r = ev.prediction_errors_from_labels_table(_register_labels(linker, p) if not p.get("table_name") else p["table_name"],
+                                                       include_false_positives=p["fp"], include_false_negatives=p["fn"], threshold_match_probability=p["thr"])
+        return sorted([str(x["unique_id_l"]), str(x["unique_id_r"]), x.get("truth_status"), x.get("clerical_match_score"), str(x.get("found_by_blocking_rules")), float(x["match_weight"])]
+                      for x in r.as_record_dict())
+    if op == "estimate_m_labels_table":
+        linker.training.estimate_m_from_pairwise_labels(_register_labels(linker, p) if not p.get("table_name") else p["table_name"])
+        return None
+    if op == "unlinkables":
+        return _chart_data(ev.unlinkables_chart(x_col=p["x_col"], as_dict=True))
+    if op == "labelling_tool":
+        with tempfile.TemporaryDirectory() as d:
+            ev.labelling_tool_for_specific_record(p["uid"], out_path=f"{d}/lab.html", overwrite=True, match_weight_threshold=p["w"], show_splink_predictions_in_interface=p["show"])
+        return None
+    if op == "viz":
+        vz, kind = linker.visualisations, p["kind"]
+        if kind in ("histogram", "comparison_viewer", "cluster_studio", "waterfall") and state.get("predict") is None:
+            state["predict"] = linker.inference.predict()
+        if kind == "histogram":
+            return _chart_data(vz.match_weights_histogram(state["predict"], as_dict=True))
+        if kind == "comparison_viewer":
+            with tempfile.TemporaryDirectory() as d:
+                return len(vz.comparison_viewer_dashboard(state["predict"], f"{d}/cv.html", overwrite=True, num_example_rows=2, return_html_as_string=True) or "") > 0
+        if kind == "cluster_studio":
+            if state.get("cluster") is None:
+                state["cluster"] = linker.clustering.cluster_pairwise_predictions_at_threshold(state["predict"], threshold_match_probability=p["t"])
+                state["cluster_t"] = p["t"]
+            with tempfile.TemporaryDirectory() as d:
+                return len(vz.cluster_studio_dashboard(state["predict"], state["cluster"], f"{d}/cs.html", sampling_method="by_cluster_size", sample_size=3, overwrite=True, return_html_as_string=True) or "") > 0
+        if kind == "tf_chart":
+            return _chart_data(vz.tf_adjustment_chart(p["col"], as_dict=True))
+        if kind == "waterfall":
+            recs = state["predict"].as_record_dict(limit=3)
+            return len(recs) if not recs else len(_chart_data(vz.waterfall_chart(recs, as_dict=True)))
+        if kind == "match_weights_chart":
+            return _chart_data(vz.match_weights_chart(as_dict=True))
+        if kind == "m_u_chart":
+            return _chart_data(vz.m_u_parameters_chart(as_dict=True))
+        if kind == "parameter_estimates":
+            return _chart_data(vz.parameter_estimate_comparisons_chart(as_dict=True))
+        raise ValueError(kind)
+    if op == "profile":
+        # the exploratory functions take the DatabaseAPI, not the linker: run on the linker's own API they share its table cache
+        from splink import blocking_analysis as ba
+        from splink import exploratory as ex
+
+        api, kind = linker._db_api, p["kind"]
+        if kind == "profile_columns":
+            try:
+                ch = ex.profile_columns("people", api, column_expressions=["a", "b", "d"], top_n=3, bottom_n=3)
+            finally:
+                forget_result_handles(step, state)
+            return ch is not None
+        if kind == "completeness":
+            return _chart_data(ex.completeness_chart("people", api, cols=["a", "b", "c"]))
+        if kind == "cumulative_comparisons":
+            return _canon_records(ba.cumulative_comparisons_to_be_scored_from_blocking_rules_data(
+                table_or_tables="people", blocking_rules=["l.d = r.d", p["rule"]], link_type="dedupe_only", db_api=api).to_dict(orient="records"))
+        if kind == "count_comparisons":
+            return json.loads(json.dumps(ba.count_comparisons_from_blocking_rule(table_or_tables="people", blocking_rule=p["rule"], link_type="dedupe_only", db_api=api), default=str))
+        if kind == "n_largest_blocks":
+            return len(ba.n_largest_blocks(table_or_tables="people", blocking_rule=p["rule"], link_type="dedupe_only", db_api=api, n_largest=3).as_record_dict())
+        raise ValueError(kind)
+    if op == "cluster_best_links":
+        if state.get("predict") is None:
+            state["predict"] = linker.inference.predict()
+        r = linker.clustering.cluster_using_single_best_links(state["predict"], duplicate_free_datasets=list(p["free"]), threshold_match_probability=p["t"])
+        return sorted((str(x["unique_id"]), str(x["cluster_id"])) for x in r.as_record_dict())
+    raise ValueError(op)
+
+
 def user_failure_steps(rng, world):
-    """Operations whose arguments make them fail at the user level."""
+    """Operations whose arguments make them fail at the user level (first the 4 original ones, then the audit's families)."""
+    lab = gen_labels(rng, world)
     out = [
         {"op": "em", "p": {"rule": "l.a = r.b and l.b = r.a and l.a = 'nope'", "fix_u": False}, "why": "training rule yields no pairs"},
         {"op": "estimate_prior", "p": {"rules": ["l.d = r.d"], "recall": 1e-9}, "why": "recall inconsistent with the observed matches"},
         {"op": "estimate_m_label_bad", "p": {}, "why": "label column does not exist"},
         {"op": "find_matches_bad", "p": {}, "why": "new records lack a column used by the model"},
     ]
-    return out
+    acc = gen_step(rng, world, "acc_label_col")["p"]
+    err = gen_step(rng, world, "pred_err_label_col")["p"]
+    acc_t = gen_step(rng, world, "acc_label_table")["p"]
+    err_t = gen_step(rng, world, "pred_err_label_table")["p"]
+    extra = [
+        {"op": "acc_label_col", "p": dict(acc, col="no_such_column"), "why": "accuracy analysis: label column does not exist"},
+        {"op": "pred_err_label_col", "p": dict(err, col="no_such_column"), "why": "prediction errors: label column does not exist"},
+        {"op": "acc_label_col", "p": dict(acc, output_type="no_such_output"), "why": "accuracy analysis: invalid output type (raised after the SQL ran)"},
+        {"op": "acc_label_col", "p": dict(acc, add_metrics=["f1", "f7"]), "why": "accuracy analysis: invalid metric"},
+        {"op": "pred_err_label_col", "p": dict(err, fp=False, fn=False), "why": "prediction errors: neither false positives nor false negatives requested"},
+        {"op": "acc_label_table", "p": dict(acc_t, table_name="no_such_labels_table"), "why": "accuracy analysis: labels table does not exist"},
+        {"op": "pred_err_label_table", "p": dict(err_t, table_name="no_such_labels_table"), "why": "prediction errors: labels table does not exist"},
+        {"op": "pred_err_label_table", "p": dict(err_t, labels=[{"unique_id_l": r["unique_id_l"], "unique_id_r": r["unique_id_r"]} for r in lab], no_score=True),
+         "why": "prediction errors: labels table lacks clerical_match_score"},
+        {"op": "estimate_m_labels_table", "p": {"labels": [], "table_name": "no_such_labels_table"}, "why": "m from pairwise labels: labels table does not exist"},
+        {"op": "em", "p": {"rule": "l.a = = r.a", "fix_u": False}, "why": "training rule is not valid SQL"},
+        {"op": "estimate_prior", "p": {"rules": ["l.d = r.d"], "recall": rng.choice([0, 0.0, 1.5, -1])}, "why": "recall outside (0, 1]"},
+        {"op": "compare_two_bad", "p": {}, "why": "records to compare lack a column used by the model"},
+        {"op": "cluster_bad", "p": {}, "why": "clustering a table that is not a predictions table"},
+        {"op": "labelling_tool", "p": {"uid": 987654, "w": -4, "show": True}, "why": "labelling tool for an id that does not exist"},
+        {"op": "predict_bad", "p": {}, "why": "predict with a match weight threshold that is not a number"},
+    ]
+    return out, extra
 
 
 def apply_bad(linker, world, step, state):
@@ -132,6 +412,12 @@ def apply_bad(linker, world, step, state):
     elif step["op"] == "find_matches_bad":
         df = impl.typed_frame([{"unique_id": 9001, "zzz": "q"}], {"unique_id": "int", "zzz": "str"})
         linker.inference.find_matches_to_new_records(df, blocking_rules=[], match_weight_threshold=-30)
+    elif step["op"] == "compare_two_bad":
+        linker.inference.compare_two_records({"unique_id": 9001, "zzz": "q"}, {"unique_id": 9002, "zzz": "r"})
+    elif step["op"] == "cluster_bad":
+        linker.clustering.cluster_pairwise_predictions_at_threshold(linker._db_api.table_to_splink_dataframe("__splink__df_predict", "people"), threshold_match_probability=0.5)
+    elif step["op"] == "predict_bad":
+        linker.inference.predict(threshold_match_weight="not a number")
     else:
         raise ValueError(step["op"])
 
@@ -142,6 +428,8 @@ _orig_apply = H.apply_op
 def _apply(linker, world, step, state):
     if step["op"].endswith("_bad"):
         return apply_bad(linker, world, step, state)
+    if step["op"] in EVAL_OPS:
+        return apply_eval(linker, world, step, state)
     return _orig_apply(linker, world, step, state)
 
 
@@ -149,25 +437,34 @@ H.apply_op = _apply
 
 
 def plan_cases(args):
-    """Dry-run an op to count its statements, then emit one case per statement index (exhaustive) + a no-fault control."""
+    """Dry-run an op to count its statements, then emit one case per statement index (exhaustive) + a no-fault control.
+    An operation that raises inside the real code WITHOUT a fault (a model without blocking rules given to the label-column
+    evaluation, a dashboard over clusters that are all singletons, ...) is a user-level failure: it becomes a case of that kind."""
     world, prefix, step, conts = args
-    try:
-        n = count_statements(world, prefix, step)
-    except Exception as e:  # noqa: BLE001
-        import traceback
+    import traceback
 
+    try:
+        api, log, linker, state = build(world, prefix)
+    except Exception as e:  # noqa: BLE001
         if f'File "{core.REPO}/' in traceback.format_exc():
-            return {"skip": f"{step['op']} raises without a fault: {type(e).__name__}"}
+            return {"skip": f"the prefix {[s['op'] for s in prefix]} raises without a fault: {type(e).__name__}"}
         raise
-    return {"n": n}
+    before = log["statements"]
+    try:
+        H.apply_op(linker, world, step, state)
+    except Exception as e:  # noqa: BLE001
+        if f'File "{core.REPO}/' in traceback.format_exc():
+            return {"natural": f"{step['op']} raises without a fault: {type(e).__name__}"}
+        raise
+    return {"n": log["statements"] - before}
 
 
 plan_cases_safe = core.safe(plan_cases)
 
 
 def classify(what):
-    for pat, cls in [("changed from", "linker settings changed by a failed call"), ("saved model differs", "model changed by a failed call"),
-                     ("(after the history)", "later results differ after a failed call"), ("pair sets differ", "later results differ after a failed call"),
+    for pat, cls in [("(after the history)", "later results differ after a failed call"), ("changed from", "linker settings changed by a failed call"),
+                     ("saved model differs", "model changed by a failed call"), ("pair sets differ", "later results differ after a failed call"),
                      ("continuation raised on one side", "later operations behave differently after a failed call")]:
         if pat in what:
             return cls
@@ -178,35 +475,62 @@ def POPULATING_EM(rng):
     return {"op": "em", "p": {"rule": rng.choice(["l.d = r.d", "l.a = r.a", "l.c = r.c"]), "fix_u": False, "populate_prior": True}}
 
 
+CONT_OPS = ["predict", "estimate_u", "em", "find_matches", "compare_two", "cluster", "deterministic_link"]
+# audit C08: later calls that read the blocking rules (the label-column evaluations add their own rule to the model's rules, the
+# labels-table ones report found_by_blocking_rules, deterministic_link / cumulative comparisons use them) and the trained values
+CONT_EVAL_OPS = ["acc_label_col", "pred_err_label_col", "acc_label_table", "pred_err_label_table", "estimate_m_label", "unlinkables", "profile"]
+NONEMPTY_RULES = [["l.d = r.d"], ["l.d = r.d", "l.a = r.a"], ["l.a = r.a", "l.b = r.b", "l.d = r.d"]]
+
+
+def gen_cont(rng, world, opname, length):
+    cont = gen_hist(rng, world, length, CONT_OPS * 3 + CONT_EVAL_OPS)
+    if opname == "em" and rng.random() < 0.6:
+        cont.append(POPULATING_EM(rng))  # a later session that reads ALL registered sessions (a failed one must not be among them)
+    if opname in LABEL_OPS + ["estimate_m_label", "estimate_m_label_bad"] and rng.random() < 0.7:
+        # the same kind of evaluation again, now succeeding, or its sibling
+        cont.append(gen_step(rng, world, rng.choice(LABEL_OPS[:2] if rng.random() < 0.7 else LABEL_OPS)))
+    return cont
+
+
 def run(ctx: core.Ctx):
     ctx.rule = (
         "cases = for sampled (dataset+model, 0-2 operation prefix, operation) triples: EVERY backend-statement index of the operation as the injected failure point (exhaustive per "
-        "triple, counted by a dry run) x one random continuation of 1-3 operations, over the 12 faultable public operations; + 4 user-level failures (training rule without pairs, "
-        "recall inconsistent with the data, missing label column, new records lacking model columns); duckdb+sqlite. "
+        "triple, counted by a dry run) x one random continuation of 1-4 operations, over the 22 faultable public operations (12 training/inference/clustering + accuracy analysis and "
+        "prediction errors from a label column and from a labels table with all their options, m from pairwise labels, unlinkables, labelling tool, 8 charts/dashboards, 5 profiling / "
+        "blocking-analysis functions on the linker's DatabaseAPI, single-best-links clustering); + user-level failures (4 original + 15 argument-level ones + every operation that "
+        "raises without a fault on its generated input); duckdb+sqlite. After the failed call: saved model, blocking rules, retain flags, link type, extra output columns, EM session "
+        "list and trained-value history unchanged; then every continuation step's public result, the final predict() and the final state equal those of a reference linker. "
         "non-trivial = the call raised and was followed by a continuation; distinct = hash of (world, prefix, op, fault index)."
     )
     ctx.assumptions = [
         "faults are injected at DatabaseAPI._execute_sql_against_backend (every statement Splink sends to the backend, DROP/CREATE included)",
         "left-over content-addressed tables of a failed call are allowed (they are harmless by C07); only the model, settings and later results are compared",
+        "profile_columns deletes every table Splink created on the DatabaseAPI it is given (its last step, by design): handles to earlier results are not reused after it, failed or not",
     ]
     ctx.lean = core.lean_check(PROP, ctx.thorough)
     rng = ctx.rng
     triples = []
-    n_triples = ctx.budget(26, 400)
+    n_triples = ctx.budget(34, 600)
     ops_cycle = list(FAULTABLE)
     rng.shuffle(ops_cycle)
     for i in range(n_triples):
         world = H.gen_world(rng)
-        prefix = H.gen_history(rng, world, length=rng.choice([0, 1, 2]), ops=["estimate_u", "predict", "em", "compute_tf", "cluster"])
         opname = ops_cycle[i % len(ops_cycle)]
-        step = H.gen_history(rng, world, length=1, ops=[opname])
+        if opname in ("acc_label_col", "pred_err_label_col") and rng.random() < 0.85:
+            # the label-column evaluations need >= 1 rule of the model to succeed (their own rule comes on top): mostly 1-3 rules,
+            # sometimes none (then the call is a user-level failure)
+            world["rules"] = rng.choice(NONEMPTY_RULES)
+        prefix = H.gen_history(rng, world, length=rng.choice([0, 1, 2]), ops=["estimate_u", "predict", "em", "compute_tf", "cluster"])
+        if rng.random() < 0.3:
+            # an evaluation that SUCCEEDED earlier (its tables are in the cache when the faulted call runs)
+            prefix = prefix + gen_hist(rng, world, 1, ["estimate_m_label", "acc_label_table"] + (["acc_label_col", "pred_err_label_col"] * 2 if world["rules"] else []))
+            ctx.count("prefix_with_earlier_evaluation", prefix[-1]["op"])
+        step = gen_hist(rng, world, 1, [opname])
         if not step:
             continue
         if opname == "graph_metrics":
             prefix = prefix + [{"op": "predict", "p": {}}, {"op": "cluster", "p": {"t": 0.1}}]
-        cont = H.gen_history(rng, world, length=rng.randint(1, 3), ops=["predict", "estimate_u", "em", "find_matches", "compare_two", "cluster", "deterministic_link"])
-        if opname == "em" and rng.random() < 0.6:
-            cont.append(POPULATING_EM(rng))  # a later session that reads ALL registered sessions (a failed one must not be among them)
+        cont = gen_cont(rng, world, opname, rng.randint(1, 3))
         triples.append((world, prefix, step[0], cont))
     if ctx.replay:
         cases = [json.loads(open(ctx.replay).read())["replay"]["case"]]
@@ -217,17 +541,32 @@ def run(ctx: core.Ctx):
             if core.impl_error(pl) or "skip" in pl:
                 ctx.count("skipped_triples", pl.get("skip", pl.get("__error__")))
                 continue
+            if "natural" in pl:
+                ctx.count("natural_user_failures", pl["natural"])
+                cases.append({"world": world, "prefix": prefix, "step": step, "cont": cont, "k": None, "why": pl["natural"], "tag": "user"})
+                continue
             ks = list(range(pl["n"]))
-            if not ctx.thorough and len(ks) > 14:
-                ks = sorted(rng.sample(ks, 14))
+            # quick tier: at most 14 fault points per triple (24 for the label evaluations, the audit's family), sampled
+            cap = 24 if step["op"] in LABEL_OPS else 14
+            if not ctx.thorough and len(ks) > cap:
+                ks = sorted(rng.sample(ks, cap))
                 ctx.count("statement_indices_sampled", True)
             for k in ks + [pl["n"]]:  # k = n: the fault never fires (control)
                 cases.append({"world": world, "prefix": prefix, "step": step, "cont": cont, "k": k, "n_statements": pl["n"], "tag": "fault"})
-        for _ in range(ctx.budget(3, 30)):
+        n_worlds = ctx.budget(3, 30)
+        extras_order = None
+        for wi in range(n_worlds):
             world = H.gen_world(rng)
-            for st in user_failure_steps(rng, world):
-                cont = H.gen_history(rng, world, length=2, ops=["predict", "em", "estimate_u"])
-                if st["op"] == "em":
+            if wi % 3 != 2:
+                world["rules"] = rng.choice(NONEMPTY_RULES)
+            base, extra = user_failure_steps(rng, world)
+            if extras_order is None:
+                extras_order = list(range(len(extra)))
+                rng.shuffle(extras_order)
+            mine = [extra[j] for j in extras_order[wi % 3::3]]  # every argument-level failure once per 3 worlds
+            for st, audit in [(x, False) for x in base] + [(x, True) for x in mine]:
+                cont = gen_cont(rng, world, st["op"], 2) if audit else gen_hist(rng, world, 2, ["predict", "em", "estimate_u"])
+                if st["op"] == "em" and not audit:
                     cont.append(POPULATING_EM(rng))
                 cases.append({"world": world, "prefix": [], "step": {"op": st["op"], "p": st["p"]}, "cont": cont, "k": None, "why": st["why"], "tag": "user"})
     res = core.pmap(run_fault_case_safe, cases, chunksize=2)
@@ -241,6 +580,18 @@ def run(ctx: core.Ctx):
                          "raised": r["raised"], "state_diff": r["state_diff"], "later_diff": r.get("later_diff")} if len(ctx.samples) < 6 else None)
         ctx.count("op", c["step"]["op"]); ctx.count("engine", c["world"]["engine"]); ctx.count("kind", c["tag"])
         ctx.count("raised", r["raised"] is not None)
+        sp = c["step"]["p"]
+        if c["step"]["op"] in EVAL_OPS:
+            ctx.count("eval_variant", c["step"]["op"] + ":" + str(sp.get("kind") or sp.get("output_type") or (f"fp={sp['fp']},fn={sp['fn']}" if "fp" in sp else "-")))
+        if c["step"]["op"] in LABEL_OPS:
+            ctx.count("label_eval_rules_in_model", len(c["world"]["rules"]))
+            ctx.count("label_eval_threshold", sp.get("thr"))
+        if c["tag"] == "user":
+            ctx.count("user_failure", c.get("why"))
+        if r["raised"] is not None:
+            for st in c["cont"]:
+                ctx.count("continuation_op", st["op"])
+            ctx.count("continuation_steps_that_raised_too", r.get("cont_raised", 0))
         if c["k"] is not None:
             ctx.count("statements_per_op", f"{c['step']['op']}:{c['n_statements']}")
         if c["tag"] == "user" and r["raised"] is None:
